@@ -132,7 +132,7 @@ def names_of(node, m):
     return out
 
 
-def two_assignments(vm, mir, nst=2):
+def two_assignments(vm, mir, nst=2, last=None):
     """Program of nst assignments placed on lines {1..nst}^nst (names / values symbolic)"""
     gen = Gen(vm, mir, list_max=1)
     gen.names = lambda g, path: name_char(vm, path)
@@ -140,6 +140,11 @@ def two_assignments(vm, mir, nst=2):
     gen.force['root.Program.code'] = 1; gen.force['root.Program.code[0]'] = 'NonEmpty'; gen.force['root.Program.code[0].NonEmpty.0'] = nst
     for i in range(nst):
         sp = f'root.Program.code[0].NonEmpty.0[{i}]'
+        if last is not None and i == nst - 1:
+            # the last statement is of another kind, in its minimal shape (e.g. a push without values, a bare listen, a break)
+            gen.force[sp] = last
+            if last == 'ArrayPush': gen.force[sp + '.ArrayPush.0.ArrayPush.value?'] = 'None'
+            continue
         gen.force[sp] = 'Assignment'
         gen.force[sp + '.Assignment.0.Assignment.dest'] = 'Identifier'
         gen.force[sp + '.Assignment.0.Assignment.dest.Identifier.0'] = 'VariableName'
@@ -166,9 +171,9 @@ def two_assignments(vm, mir, nst=2):
     return adt, node, lines
 
 
-def h_order(vm, mir, nst=2):
+def h_order(vm, mir, nst=2, last=None):
     """Linter::run on nst assignments placed on lines {1,2}^nst"""
-    adt, node, lines = two_assignments(vm, mir, nst)
+    adt, node, lines = two_assignments(vm, mir, nst, last)
     vm.describe = lambda m: {'tree': node.describe(), 'lines': lines, 'names': names_of(node, m)}
     out = []
     def bad(role, detail):
@@ -210,6 +215,9 @@ def jobs(ctx, tier):
                 continue
             js.append(Job(f'rule/{ty}::{v}', h_rule, (mir, ty, v), witness=['rule-done'], str_mode='bounded', weight=4, fuel=6_000_000))
     js.append(Job('order/two-assignments', h_order, (mir,), witness=['order-done', 'tie'], str_mode='bounded', weight=10, fuel=6_000_000))
+    for last in mir.src.enums['Statement']:
+        if last in ('Assignment', 'If', 'While', 'Until', 'Function'): continue
+        js.append(Job(f'order/assignment+{last}', h_order, (mir, 2, last), witness=['order-done'], str_mode='bounded', weight=10, fuel=12_000_000))
     js.append(Job('order/three-assignments', h_order, (mir, 3), witness=['order-done'], str_mode='bounded', weight=30, fuel=12_000_000))
     return js
 
